@@ -111,6 +111,7 @@ type Unit struct {
 	cardDone map[string]bool
 	scratch *Heap
 	tiDone map[string]bool
+	closure bool // verified only because another unit of the property applies this contract
 	pkgInvAt map[*Heap]bool // heaps at which the package invariants have been recalled
 	fn      *ssa.Function // the function under contract (nil for lemmas, sweeps, census units)
 	structKeys bool // summaries and abstracted calls are named by the structure of the code (C20)
